@@ -104,14 +104,16 @@ class NetworkService(ModelElement):
                     try:
                         self.connect_interface(interface=i)
                         connected_interfaces.append(i)
-                    except TopologyException as e:
+                    except Exception as e:
                         # disconnect previously connected interfaces
                         for ii in connected_interfaces:
                             self.disconnect_interface(ii)
                         # remove sliver from the graph
                         self.topo.graph_model.remove_ns_with_cps_and_links(node_id=self.node_id)
                         # re-throw the exception
-                        raise TopologyException(str(e))
+                        if isinstance(e, TopologyException):
+                            raise TopologyException(str(e))
+                        raise
         else:
             assert node_id is not None
             super().__init__(name=name, node_id=node_id, topo=topo)
